@@ -38,4 +38,10 @@ ImplPauseState(p, t) ==
             ELSE [p2 EXCEPT !.start = t]
   IN IF ~ImplCanPause(p2, t) THEN p
      ELSE [p3 EXCEPT !.flags = 1, !.daily = p3.daily + 1, !.consec = p3.consec + 1]
+\* the pair <<accepted, state after>> the TLC models use
+\* @type: ($pstate, Int) => <<Bool, $pstate>>;
+ImplPause(p, t) == <<ImplPauseOk(p, t), ImplPauseState(p, t)>>
+\* MarginfiGroup::is_protocol_paused on the group's cached copy (a record with flags and start)
+\* @type: ({ flags: Int, start: Int }, Int) => Bool;
+ImplGroupPaused(c, t) == c.flags = 1 /\ ~(IF t < c.start THEN FALSE ELSE t - c.start >= PAUSE)
 =============================================================================
